@@ -9,6 +9,9 @@ package main
 //
 //	authn tlscert <tr> <pools> <leaf> <presented intermediates>
 //	      pools: list of <trust domain>=<root>+<root>..   (roots R1 R2 R3; RX exists but is in no pool)
+//	             or <trust domain>=@<key>;<key>..  a FEDERATED trust domain: its roots come from a SPIFFE bundle endpoint that
+//	             serves these JWK entries, fetched by the REAL spiffe.RetrieveSpiffeBundleRootCerts;
+//	             key = <use>:<cert>+<cert>..  use: x (x509-svid) j (jwt-svid) n (no use); cert: any CA of the fixture
 //	      leaf:  nocert | <issuer>|<san entries>|<time ok|expired|future>|<eku both|client|server|none>
 //	             issuer: R1 R2 R3 RX I1(by R1) I2(by R2) I3(by I1) IE(by R1, expired) INC(by R1, not a CA)
 //	      presented intermediates: list of I1 I2 I3 IE INC
@@ -28,11 +31,13 @@ import (
 	"encoding/json"
 	"encoding/pem"
 	"errors"
+	"fmt"
 	"io"
 	"math/big"
 	"net"
 	"net/http"
 	"net/http/httptest"
+	"os"
 	"strings"
 	"time"
 
@@ -115,15 +120,73 @@ func (f *pkiFixture) startBundleServer() error {
 	}
 	f.bundle = httptest.NewTLSServer(http.HandlerFunc(func(w http.ResponseWriter, r *http.Request) {
 		doc := jose.JSONWebKeySet{}
-		for _, name := range strings.Split(strings.TrimPrefix(r.URL.Path, "/"), "+") {
-			if c := f.cas[name]; c != nil {
-				doc.Keys = append(doc.Keys, jose.JSONWebKey{Key: c.cert.PublicKey, Certificates: []*x509.Certificate{c.cert}, Use: "x509-svid"})
+		if spec, ok := strings.CutPrefix(r.URL.Path, "/k/"); ok {
+			// an explicit list of JWK entries (hex of the pool's key list)
+			raw, _ := hex.DecodeString(spec)
+			for _, k := range parseBundleKeys(string(raw)) {
+				jwk := jose.JSONWebKey{Key: f.cas["R1"].cert.PublicKey, Use: k.use}
+				for i, name := range k.certs {
+					if c := f.cas[name]; c != nil {
+						if i == 0 {
+							jwk.Key = c.cert.PublicKey
+						}
+						jwk.Certificates = append(jwk.Certificates, c.cert)
+					}
+				}
+				doc.Keys = append(doc.Keys, jwk)
+			}
+		} else {
+			for _, name := range strings.Split(strings.TrimPrefix(r.URL.Path, "/"), "+") {
+				if c := f.cas[name]; c != nil {
+					doc.Keys = append(doc.Keys, jose.JSONWebKey{Key: c.cert.PublicKey, Certificates: []*x509.Certificate{c.cert}, Use: "x509-svid"})
+				}
 			}
 		}
 		w.Header().Set("Content-Type", "application/json")
 		_ = json.NewEncoder(w).Encode(doc)
 	}))
 	return nil
+}
+
+// bundleKey is one JWK entry of a SPIFFE bundle document.
+type bundleKey struct {
+	use   string
+	certs []string
+}
+
+// parseBundleKeys reads `<use>:<cert>+<cert>;...` (the text after '@' of a federated pool).
+func parseBundleKeys(spec string) []bundleKey {
+	var out []bundleKey
+	if spec == "" {
+		return out
+	}
+	for _, k := range strings.Split(spec, ";") {
+		u, cs, _ := strings.Cut(k, ":")
+		key := bundleKey{use: map[string]string{"x": "x509-svid", "j": "jwt-svid"}[u]}
+		if cs != "" {
+			key.certs = strings.Split(cs, "+")
+		}
+		out = append(out, key)
+	}
+	return out
+}
+
+// bundleRoots states what a SPIFFE bundle contributes (independently of the code under test): the one
+// certificate of every X.509-SVID entry; a bundle with an X.509-SVID entry that does not carry exactly one
+// certificate, or without any X.509-SVID entry, is refused as a whole.  JWT-SVID entries (keys for validating
+// JWTs) and entries without a use never are X.509 trust roots.
+func bundleRoots(keys []bundleKey) ([]string, bool) {
+	var roots []string
+	for _, k := range keys {
+		if k.use != "x509-svid" {
+			continue
+		}
+		if len(k.certs) != 1 {
+			return nil, false
+		}
+		roots = append(roots, k.certs[0])
+	}
+	return roots, len(roots) > 0
 }
 
 type leafSpec struct {
@@ -216,8 +279,9 @@ func (f *pkiFixture) clientCert(l leafSpec, ints []string) (*tls.Certificate, er
 }
 
 // handshake runs a real TLS handshake; it returns the server's connection state, or ok=false when the
-// server refused the client.
-func (f *pkiFixture) handshake(pools []string, client *tls.Certificate) (tls.ConnectionState, bool, error) {
+// server refused the client; bundleErr: the SPIFFE bundle of a federated trust domain was refused (istiod's
+// createPeerCertVerifier fails: no server).
+func (f *pkiFixture) handshake(pools []string, client *tls.Certificate) (state tls.ConnectionState, ok, bundleErr bool, err error) {
 	verifier := spiffe.NewPeerCertVerifier()
 	// the registration paths of the real verifier, chosen by the pools' text: AddMapping, AddMappingFromPEM
 	// (what istiod's createPeerCertVerifier uses), AddMappings, and AddMappings of what the real
@@ -225,8 +289,27 @@ func (f *pkiFixture) handshake(pools []string, client *tls.Certificate) (tls.Con
 	mode := len(strings.Join(pools, ",")) % 4
 	merged := map[string][]*x509.Certificate{}
 	endpoints := map[string]string{}
+	federated := false
+	for _, p := range pools {
+		if _, roots, _ := strings.Cut(p, "="); strings.HasPrefix(roots, "@") {
+			federated = true
+		}
+	}
+	if federated {
+		mode = 0 // the plain pools by AddMapping, the federated ones through the bundle endpoint
+		if err := f.startBundleServer(); err != nil {
+			return state, false, false, err
+		}
+	}
 	for _, p := range pools {
 		td, roots, _ := strings.Cut(p, "=")
+		if keys, ok := strings.CutPrefix(roots, "@"); ok {
+			if _, dup := endpoints[td]; dup {
+				return state, false, false, errors.New("two bundle endpoints for one trust domain")
+			}
+			endpoints[td] = strings.TrimPrefix(f.bundle.URL, "https://") + "/k/" + hex.EncodeToString([]byte(keys))
+			continue
+		}
 		var certs []*x509.Certificate
 		var pemBytes []byte
 		for _, r := range strings.Split(roots, "+") {
@@ -240,19 +323,30 @@ func (f *pkiFixture) handshake(pools []string, client *tls.Certificate) (tls.Con
 			verifier.AddMapping(td, certs)
 		case 1:
 			if err := verifier.AddMappingFromPEM(td, pemBytes); err != nil {
-				return tls.ConnectionState{}, false, err
+				return state, false, false, err
 			}
 		default:
 			merged[td] = append(merged[td], certs...)
 		}
 	}
-	switch mode {
-	case 2:
+	switch {
+	case federated:
+		pool := x509.NewCertPool()
+		pool.AddCert(f.bundle.Certificate())
+		fetched, err := spiffe.RetrieveSpiffeBundleRootCerts(endpoints, pool, 0)
+		if err != nil {
+			if os.Getenv("C09_DEBUG") != "" {
+				fmt.Fprintln(os.Stderr, "bundle:", err)
+			}
+			return state, false, true, nil
+		}
+		verifier.AddMappings(fetched)
+	case mode == 2:
 		verifier.AddMappings(merged)
-	case 3:
+	case mode == 3:
 		if len(merged) > 0 {
 			if err := f.startBundleServer(); err != nil {
-				return tls.ConnectionState{}, false, err
+				return state, false, false, err
 			}
 			for td, certs := range merged {
 				var names []string
@@ -265,7 +359,7 @@ func (f *pkiFixture) handshake(pools []string, client *tls.Certificate) (tls.Con
 			pool.AddCert(f.bundle.Certificate())
 			fetched, err := spiffe.RetrieveSpiffeBundleRootCerts(endpoints, pool, 2*time.Second)
 			if err != nil {
-				return tls.ConnectionState{}, false, err
+				return state, false, false, err
 			}
 			verifier.AddMappings(fetched)
 		}
@@ -297,19 +391,19 @@ func (f *pkiFixture) handshake(pools []string, client *tls.Certificate) (tls.Con
 			_, _ = io.Copy(io.Discard, cli) // pick up the alert of a server that refuses the certificate
 		}
 	}()
-	err := srv.Handshake()
-	state := srv.ConnectionState()
+	err = srv.Handshake()
+	state = srv.ConnectionState()
 	_ = sc.Close()
 	_ = cc.Close()
 	<-done
 	if err != nil {
 		var ne net.Error
 		if errors.As(err, &ne) && ne.Timeout() {
-			return state, false, err
+			return state, false, false, err
 		}
-		return state, false, nil
+		return state, false, false, nil
 	}
-	return state, true, nil
+	return state, true, false, nil
 }
 
 // prepareTLSCert fills `p` for an `authn tlscert` line; rejected=true: the handshake was refused.
@@ -328,9 +422,13 @@ func (s *authnSUT) prepareTLSCert(f []string, p *prepared) (rejected bool, err e
 			return false, err
 		}
 	}
-	state, ok, err := s.pki.handshake(wire.DecList(f[2]), client)
+	state, ok, bundleErr, err := s.pki.handshake(wire.DecList(f[2]), client)
 	if err != nil {
 		return false, err
+	}
+	if bundleErr {
+		p.bundleErr = true
+		return true, nil
 	}
 	if !ok {
 		return true, nil
